@@ -750,6 +750,7 @@ func runC18(c *gen.Ctx) error {
 	c18StatusRTGen(c)
 	c18MDRTGen(c)
 	c18HdrRTGen(c)
+	c18GetRTGen(c)
 
 	// ---- percent-encoding: every byte, pairs, random strings
 	for b := 0; b < 256; b++ {
